@@ -148,6 +148,10 @@ func ShortScenario(base time.Time, d time.Duration) {}
 // capacities up to size classes). Engine directive; natively the real runtime decides.
 func AppendSpare(k int) {}
 
+// Sat records (engine only) that cond is satisfiable at this point: used for tightness twins ("with a weaker bound
+// the assertion would be violable"). Natively a no-op.
+func Sat(label string, cond bool) {}
+
 func Assume(b bool) {
 	if !b {
 		panic("vf.Assume violated natively: model does not satisfy harness assumption")
